@@ -123,6 +123,8 @@ def gen_case(r):
     c = {"txns": ts, "src": "gen"}
     # ---- configuration-level names
     c["rc"] = c["ovc"] = None
+    # where the effective strict mode comes from: the file, or --strict.mode over the opposite file value
+    c["schan"] = r.choice(["file", "file", "cli"])
     c["price"] = None
     pool = [x for x in J.COMMS if x] + EXTRA_COMMS
     if r.random() < 0.4:
@@ -278,6 +280,10 @@ def sessions(c):
         rq = {"conf": conf, "inputs": [{"text": text}], "ops": copy.deepcopy(ops)}
         if c["ovc"]:
             rq["overlaps"] = {"commodity": c["ovc"]}
+        if c.get("schan") == "cli" and mode != "N":
+            eff = mode == "S"
+            conf["toml"] = conf["toml"].replace("strict = %s" % ("true" if eff else "false"), "strict = %s" % ("false" if eff else "true"), 1)
+            rq.setdefault("overlaps", {})["strict"] = eff
         out.append(rq)
     return out
 
@@ -355,7 +361,7 @@ def explain(c, o):
 
 
 def case_public(c):
-    return {k: c[k] for k in ("accounts", "comms", "permit", "tags", "equity", "eqa", "rc", "ovc", "price", "kinds") if k in c}
+    return {k: c[k] for k in ("accounts", "comms", "permit", "tags", "equity", "eqa", "rc", "ovc", "schan", "price", "kinds") if k in c}
 
 
 def main(run):
